@@ -1,6 +1,7 @@
 // qh: runs case batches against the real qcow2-rs library on SimFile.
 // Usage: qh <batch-file> <outdir>       observations go to stdout
 mod codec;
+mod backend;
 mod exec;
 mod simfile;
 
@@ -374,6 +375,9 @@ fn main() {
         log::set_max_level(log::LevelFilter::Trace);
     }
     std::panic::set_hook(Box::new(|info| {
+        if std::env::var("QH_PANIC").is_ok() {
+            eprintln!("PANIC {}", info);
+        }
         if let Some(l) = info.location() {
             *PLOC.lock().unwrap() = format!("{}:{}", l.file().rsplit('/').next().unwrap_or(""), l.line());
         }
@@ -381,6 +385,10 @@ fn main() {
     let args: Vec<String> = std::env::args().collect();
     if args[1] == "codec" {
         codec::run(&args[2]);
+        return;
+    }
+    if args[1] == "backend" {
+        backend::run(&args[2], &args[3]);
         return;
     }
     if args[1] == "cache" {
